@@ -1,7 +1,7 @@
 (** C16 - bad paths fail before any change; loadable torrents never crash a run.  Statements only.
     Partial: allocation failure (known finding K2) and thread panics at join are runtime. *)
 From TB Require Import Base Decimal BencodeModel TorrentModel TorrentProofs PathModel FsModel SolverModel FinderModel RunModel
-                       SolverProofs RunProofs FsProofs FaultProofs PreludeProofs TableProofs Generated GeneratedObligations SystemModel SystemProofs GlueProofs RunExample.
+                       SolverProofs RunProofs FsProofs FaultProofs PreludeProofs TableProofs Generated GeneratedObligations SystemModel SystemProofs GlueProofs RunExample SetupTotal.
 Local Open Scope N_scope.
 
 (** A scan or export path that is relative, missing or not a directory - whichever position it
@@ -31,8 +31,22 @@ Proof. exact (whole_run_no_panic H content export ts ix es ws f0 pool0 s pg). Qe
 Theorem C16_loaded_torrent_ok H x t : len x <= u64max -> load H x = Ok t -> torrent_ok t.
 Proof. exact (load_torrent_ok H x t). Qed.
 
+(** THE SET-UP NEVER PANICS.  For torrents the loader returned ([torrent_ok], [paths_ok]: C16_loaded_torrent_ok,
+    C16_loaded_paths_ok) and ANY index whose registered paths have a last component - any directory
+    contents - the candidate ranking ([populate], with its [file_name().unwrap()]) and the work-list
+    construction ([work_of]: layout, [find_entry(..).unwrap()]) return [Ok]: the hypotheses
+    "[populate .. = Ok es]" and "[work_of es ts = Ok ws]" of the whole-run theorems always hold. *)
+Theorem C16_setup_never_panics export ts ix : Forall torrent_ok ts -> Forall paths_ok ts -> index_paths_ok ix ->
+  exists es ws, populate ix (metadata_table export ts 0) = Ok es /\ work_of es ts = Ok ws.
+Proof. exact (setup_total export ts ix). Qed.
+
+Theorem C16_loaded_paths_ok H x t : len x <= u64max -> load H x = Ok t -> paths_ok t.
+Proof. exact (load_paths_ok H x t). Qed.
+
 Print Assumptions C16_bad_path_no_effect.
 Print Assumptions C16_piece_never_panics.
 Print Assumptions C16_load_total.
 Print Assumptions C16_whole_run_no_panic.
 Print Assumptions C16_loaded_torrent_ok.
+Print Assumptions C16_setup_never_panics.
+Print Assumptions C16_loaded_paths_ok.
